@@ -523,6 +523,12 @@ func runC13(r *Run, replay *Case) {
 				}
 			}
 			return
+		case "callvariadic":
+			var names []string
+			remarshal(replay.Input["names"], &names)
+			c13CallVariadic(r)
+			_ = names
+			return
 		case "callarity":
 			if c := c13CallArityCase(int(replay.Input["params"].(float64)), replay.Input["variadic"] == true, int(replay.Input["nargs"].(float64))); c != nil {
 				r.Add(c)
